@@ -6,9 +6,9 @@ From HN Require Import Base.Bytes Model.H2Frames Model.Hpack Model.Akamai Model.
 Import ListNotations.
 
 (* Format.  For every frame list in the domain of the Akamai format (wf_frames: the frames the
-   fingerprint reads are well-sized per RFC 7540, pseudo-header fields are the four request ones) and
-   outside the three known defect classes (empty first SETTINGS; incomplete first header block;
-   non-UTF-8 pseudo-header value), the code's fingerprint is S|WU|P|PS of AkamaiSpec.fp:
+   fingerprint reads are well-sized per RFC 7540, pseudo-header fields are the four request ones, the
+   first header block - if one has started - is complete: block_complete) and outside the two known
+   defect classes (empty first SETTINGS; non-UTF-8 pseudo-header value), the code's fingerprint is S|WU|P|PS of AkamaiSpec.fp:
    all settings ids (known or unknown) and values in wire order, reserved bits masked, `00`/`0`
    defaults, exclusive bit, 31-bit dependency, weight+1, pseudo-header order of the whole first header
    block (padding and priority fields stripped, CONTINUATION fragments joined: fix 89b3393). *)
@@ -101,11 +101,6 @@ Theorem C17_known_empty_settings_refuted :
                  extract_akamai_fingerprint frames <> Val (fp frames).
 Proof. exact Known_empty_settings_refuted. Qed.
 Print Assumptions C17_known_empty_settings_refuted.
-Theorem C17_known_incomplete_block_refuted :
-  exists frames, wf_frames frames = true /\ k_incomplete_block frames = true /\
-                 extract_akamai_fingerprint frames <> Val (fp frames).
-Proof. exact Known_incomplete_block_refuted. Qed.
-Print Assumptions C17_known_incomplete_block_refuted.
 (* the witnesses of the two former classes (PADDED / PRIORITY-flag HEADERS, CONTINUATION), repaired by
    89b3393, are inside the domain of C17_string now and yield m,a,s,p *)
 Theorem C17_former_witnesses_agree :
